@@ -103,6 +103,9 @@ fn run_image(rng: &mut jxlgen::rng::Rng, bytes: &[u8], tracker: &AllocTracker, p
                 let l = rng.below(w as u64) as u32;
                 let t = rng.below(h as u64) as u32;
                 let c = CropInfo { left: l, top: t, width: rng.u32range(1, w - l), height: rng.u32range(1, h - t) };
+                if std::env::var("C13_TRACE").is_ok() {
+                    eprintln!("set_image_region {c:?} on {w}x{h}");
+                }
                 cur_region = Some(c);
                 image.set_image_region(c);
             }
@@ -290,6 +293,10 @@ pub fn run(args: &Args) -> i32 {
                 } else {
                     let _ = tracker.shrink_limit(rng.below(1 << 12) as usize);
                 }
+            }
+            if std::env::var("C13_TRACE").is_ok() {
+                let _ = std::fs::write(format!("/tmp/c13_img_{step}.jxl"), &bytes);
+                eprintln!("image {step}: {kind} hostile={hostile} {} bytes limit {}", bytes.len(), tracker.verif_limit_total());
             }
             let mut swallowed = None;
             let mut tolerated = 0u64;
